@@ -139,7 +139,7 @@ def structural(ctx, rows, n, key, info):
 
 def check_sets(ctx, monitor, lists, dist, thresh_of, n, key, info, ragree, exact=False, sort_tol=1e-9):
     """lists[i] = (ids, cn); thresh_of(i) -> ('rank', N) or ('cut', array of cutoffs per j)."""
-    scale = max(1.0, float(np.nanmax(dist[np.isfinite(dist)])))
+    scale = float(np.nanmax(dist[np.isfinite(dist)]))          # relative to the configuration itself (R10: no absolute floor, lengths come in any unit)
     tol = 0.0 if exact else 1e-9 * scale
     for i in range(n):
         lst, _cn = lists[i]
@@ -203,6 +203,8 @@ def one_case(ctx, rng, wd, which, inclusive=False, force_N=None):
             frames = 1
         snaps, inf, cell = gc.static_system(rng, d=d, K=K, N=force_N, frames=frames, nmin=max(3, K + 1), nmax=50 if not ctx.thorough else 90, vary_tilt=True, big=True, vary_box=True,
                                             poskind=("droplets" if rng.random() < 0.5 else "gas") if force_N else (None if rng.random() < 0.8 else "droplets"))
+        if rng.random() < 0.12 and not force_N:
+            snaps, cell, inf = gc.rescale_units(snaps, cell, inf, float(rng.choice([1e-9, 1e-10, 1e5])))     # another unit of length (R10)
         ppp = gc.random_mask(rng, d)
         gc.unwrap_in_place(rng, snaps.snapshots, [s_.hmatrix for s_ in snaps.snapshots], ppp)       # unwrapped coordinates
         types = snaps.snapshots[0].particle_type
@@ -212,7 +214,7 @@ def one_case(ctx, rng, wd, which, inclusive=False, force_N=None):
     ragree = np.inf if geom.is_orthogonal(H) else min(geom.agreement_radius(Hf, ppp) for Hf in Hs)
     tables = [geom.pair_table(s.positions, Hf, ppp)[1] for s, Hf in zip(snaps.snapshots, Hs)]
     dmin = min(float(np.min(t + np.eye(n) * 1e9)) for t in tables)
-    if dmin < 1e-6:
+    if dmin < 1e-6 * float(np.abs(H).max()) / 10.0:      # relative to the cell: lengths come in any unit
         return
     fn = os.path.join(wd, "nl.dat")
     info0 = {"d": d, "N": n, "cell": inf["cell"], "pos": inf["pos"], "frames": frames, "ppp": ppp, "H": Hs if not inclusive else H, "types": types,
@@ -252,6 +254,9 @@ def one_case(ctx, rng, wd, which, inclusive=False, force_N=None):
                 qn = rng.uniform(0.02, 0.5)
                 a, b = flat[int(qn * (len(flat) - 1))], flat[min(len(flat) - 1, int(qn * (len(flat) - 1)) + 1)]
                 rcv = 0.5 * (a + b)
+                if rng.random() < 0.3:
+                    rcv = b * (1.0 - 1e-5)         # a cut-off a hair (1e-5 relative, far above round-off) BELOW a pair distance: that pair is outside
+                    ctx.count("cutoff_just_below_a_pair_distance")
                 if np.isfinite(ragree):
                     rcv = min(rcv, 0.95 * ragree)
             info = lambda: {**info0, "r_cut": rcv}  # noqa: E731
@@ -271,6 +276,9 @@ def one_case(ctx, rng, wd, which, inclusive=False, force_N=None):
             cutm = base * rng.uniform(0.6, 1.4, size=(Kr, Kr))
             if rng.random() < 0.5:
                 cutm = 0.5 * (cutm + cutm.T)
+            if rng.random() < 0.3:
+                cutm = np.full((Kr, Kr), base * (1.0 - 1e-5))      # every cut-off a hair below a pair distance
+                ctx.count("cutoff_just_below_a_pair_distance")
             if inclusive:
                 cutm = np.full((Kr, Kr), rc) * rng.choice([1.0, 0.5], size=(Kr, Kr))
             if np.isfinite(ragree):
